@@ -14,7 +14,7 @@ PKGDIR = {"bttest": "bigtable/bttest", "gcsemu": "storage/gcsemu", "gcsutil": "s
           "bttest_test": "bigtable/bttest", "gcsemu_test": "storage/gcsemu", "gcsutil_test": "storage/gcsutil"}
 
 
-def sh(cmd, cwd=None, timeout=3000):
+def sh(cmd, cwd=None, timeout=1800):
     p = subprocess.run(cmd, shell=True, cwd=cwd, env=ENV, stdout=subprocess.PIPE, stderr=subprocess.STDOUT, text=True, timeout=timeout)
     return p.returncode, p.stdout
 
@@ -124,7 +124,7 @@ def detect(pid, m, props):
             return
         for p in props:
             t0 = time.time()
-            rc, out = sh("./check %s --tier quick" % p, cwd="/verif", timeout=3000)
+            rc, out = sh("./check %s --tier quick" % p, cwd="/verif", timeout=1800)
             lines = [l for l in out.splitlines() if l.startswith(("VIOLATION", "KNOWN-FINDING", "MACHINERY-ERROR", "HYPOTHESIS"))]
             res = {"exit": rc, "detected": rc == 1 and any(l.startswith("VIOLATION") for l in lines), "lines": lines[:6], "wall_s": round(time.time() - t0, 1),
                    "checked_at_verif_commit": sh("git rev-parse --short HEAD", cwd="/verif")[1].strip()}
